@@ -263,3 +263,28 @@ def init_states_table(ctx):
     out = dict(loop=L, var=v, rows=rows, sx=sx, f=f, elem=elem)
     ctx.cache["init_states_table"] = out
     return out
+
+
+def identity_on_values(ctx, chk, rule, modules):
+    """`x is y` / `x is not y` where neither side is None / True / False / Ellipsis / a class: identity of numbers and strings
+    is an implementation detail (CPython shares ints only from -5 to 256), so the test silently changes its answer with the
+    size of the values.  Returns the number of such comparisons."""
+    n = 0
+    for f in ctx.prog.all_funcs(modules):
+        for c in walk_no_nested_defs(f.node):
+            if not isinstance(c, ast.Compare):
+                continue
+            operands = [c.left] + list(c.comparators)
+            for op, a, b in zip(c.ops, operands, operands[1:]):
+                if not isinstance(op, (ast.Is, ast.IsNot)):
+                    continue
+                def singleton(x):
+                    return (isinstance(x, ast.Constant) and (x.value is None or x.value is True or x.value is False or x.value is Ellipsis)) \
+                        or (isinstance(x, ast.Name) and (x.id in ctx.prog.classes or x.id in ("NotImplemented",)))
+                if singleton(a) or singleton(b):
+                    continue
+                n += 1
+                chk.violation(rule, f.where(c), "`%s` compares identity, not value: equal numbers / strings are the same object only by accident of the interpreter "
+                              "(small integers up to 256), so the branch taken depends on the size of the operands" % src(c),
+                              expected="== / !=", found=src(c), construct="%s identity comparison" % f.short)
+    return n
